@@ -1,5 +1,7 @@
 from typing import Any, List, Optional, Set, TypeVar
 
+from confectioner.templating import dotted_key_exists
+
 from .exceptions import EvaluationError
 from .types import Evaluatable, Options
 
@@ -60,14 +62,31 @@ class Coalesce(Evaluatable[A]):
         options = options or {}
         err: Optional[EvaluationError] = None
 
+        skipped: Set[str] = set()
+
         for member in self.members:
             try:
                 member.validate(options)
-                return getattr(member, method)(options)
+                result = getattr(member, method)(options)
+                if method in ("keys", "explain"):
+                    # the choice also depends on what made earlier members fail
+                    return result | skipped
+                return result
             except EvaluationError as e:
                 err = e
+                if method in ("keys", "explain"):
+                    skipped |= self._present(member, options)
 
         raise err  # type: ignore
+
+    @staticmethod
+    def _present(member: Evaluatable, options: Options) -> Set[str]:
+        """The keys a member depends on that are present in the options."""
+        try:
+            explained = member.explain(options)
+        except EvaluationError:
+            return set()
+        return {key for key in explained if dotted_key_exists(key, options)}
 
     def __repr__(self) -> str:
         return f"Coalesce({', '.join(map(repr, self.members))})"
